@@ -1,5 +1,5 @@
 (* C17 - specification text forms round-trip; parsing reports exactly the malformed parts.  Statements only. *)
-Require Import FL.Base.Bytes FL.LogSpec.Spec FL.LogSpec.SpecFacts FL.LogSpec.ParseFacts.
+Require Import FL.Base.Bytes FL.LogSpec.Spec FL.LogSpec.SpecFacts FL.LogSpec.ParseFacts FL.LogSpec.RoundTrip.
 Open Scope nat_scope.
 
 (* parse is a total function of the string (no panic is possible), and this is all it does: with more than one
@@ -29,6 +29,30 @@ Theorem C17_parse_ok_iff :
   end.
 Proof. exact parse_ok_iff. Qed.
 
+(* Display followed by parse gives back the identical filter list, without error, for every specification
+   value (a list as level_sort produces it) whose names are printable - non-empty, free of white space and of the
+   separators , = / ; level words are allowed as names - and that has at most one default *)
+Theorem C17_display_roundtrip :
+  forall re_ok fs, desc fs -> filters_ok fs -> one_default fs ->
+    parse re_ok (display fs) = ([], {| sp_filters := fs; sp_text := None |}).
+Proof. exact display_roundtrip. Qed.
+
+(* the specfile form, semantic half (what to_toml writes = to_doc, what from_toml builds from a document = from_doc;
+   the TOML text syntax is the toml crate's business): reading back what was written decides identically for
+   every level and target *)
+Theorem C17_toml_roundtrip :
+  forall fs lvl t, desc fs -> wf_filters fs ->
+    enabled (from_doc (to_doc fs)) lvl t = enabled fs lvl t.
+Proof. exact toml_roundtrip. Qed.
+
+(* non-vacuity: a sorted specification with prefix-related names and a level word as a name *)
+Example C17_nonvacuous :
+  let fs := level_sort [(Some [97%N], 4); (Some [97%N; 58%N; 58%N; 98%N], 0); (Some w_info, 5); (None, 2)] in
+  desc fs /\ display fs <> [] /\ parse (fun _ => true) (display fs) = ([], {| sp_filters := fs; sp_text := None |}).
+Proof. split; [apply sort_desc | split; [vm_compute; discriminate | vm_compute; reflexivity]]. Qed.
+
 Check C17_parse_exact. Check C17_parse_ok_iff.
 Print Assumptions C17_parse_exact.
 Print Assumptions C17_parse_ok_iff.
+Print Assumptions C17_display_roundtrip.
+Print Assumptions C17_toml_roundtrip.
